@@ -22,6 +22,10 @@ CHECKS = {
          "TLC builds every simple polygon with up to MaxV vertices on the lattice and checks, for every probe of the doubled lattice, that the transcribed winding-number code equals the definitional closed-polygon predicate; each polygon is replayed as the footprint of the three area-feature types with exact (integer-metre) boundary probes and depth-interval probes. Plume tables: TLC decides interval, fraction and cyclic-angle branch exactly and emits the ellipse function as a term the harness evaluates.",
          "4x4 lattice, 3-4 vertices quick / 5 thorough; plume tables of 1-2 sections (3 simulated); membership within 1e-6 of a curved boundary not asserted; " + NOTE,
          "TLA+/TLC (Extent.tla Mech=Prop, Plume.tla) + replay of every polygon / table"),
+ "C06": ("model_checking",
+         "Slab.tla constructs the slab / fault surface of a straight trench in the perpendicular plane with Pythagorean dips, so that for every lattice point TLC decides exactly which segment carries the foot, the signed distance from and the distance along the surface, and membership (thickness and top truncation varying linearly along each segment); every world x point is replayed against World::distance_to_plane (1e-6 relative + 1 m) and against membership (composition and tag), leaving out only points where an inequality is tight or the nearest segment is ambiguous.",
+         "1 segment (quick) / 1-2 segments (thorough), 5 dips incl. vertical and overturned, 3 trench directions, both dip sides, min depth 0 / 100 km, slabs and faults; Cartesian straight segments only; " + NOTE,
+         "TLA+/TLC exact planar construction (Slab.tla) + replay of distances and membership"),
  "C09": ("model_checking",
          "TLC maps every 2D probe exactly onto the section (rational arithmetic on Pythagorean directions), checks that the probes stay away from straight feature boundaries, and every section x position x depth x property list is replayed: the 2D reply must equal the 3D reply at the mapped point block by block, velocities as the specified projection, and a world without cross section must refuse.",
          "36 sections (origins x 6 directions x Cartesian/spherical), 45 property lists; tolerance 1e-9 because the code's own mapping rounds; " + NOTE,
